@@ -149,6 +149,16 @@ func (w *World) key1(v ssa.Value) string {
 			}
 			return k + ")"
 		}
+		// a private copy of a byte slice (append([]byte(nil), x...), bytes.Clone(x)) holds the
+		// VALUE x had when it was made: for "is this the value that was tested" it is x
+		if _, isSl := x.Type().Underlying().(*types.Slice); isSl && !w.copyKeyBusy {
+			w.copyKeyBusy = true
+			src := w.exactCopyOf(x)
+			w.copyKeyBusy = false
+			if src != nil {
+				return w.key(src)
+			}
+		}
 		return fmt.Sprintf("call:%s:%s", fname(x.Parent()), x.Name())
 	case *ssa.Global:
 		return "&global:" + short(x.String())
@@ -850,4 +860,44 @@ func reachesAvoiding(from, to ssa.Instruction, avoid ssa.Instruction) bool {
 		stack = append(stack, liveSuccs(x)...)
 	}
 	return false
+}
+
+// exactCopyOf: call yields a slice with exactly the elements of another one — append onto an
+// empty base (nil, x[:0] of a fresh slice, make(_, 0, …)) or bytes/slices.Clone.
+func (w *World) exactCopyOf(call *ssa.Call) ssa.Value {
+	switch stdCallee(&call.Call) {
+	case "slices.Clone", "bytes.Clone":
+		return call.Call.Args[0]
+	}
+	b, ok := call.Call.Value.(*ssa.Builtin)
+	if !ok || b.Name() != "append" || len(call.Call.Args) != 2 {
+		return nil
+	}
+	if _, isSl := call.Call.Args[1].Type().Underlying().(*types.Slice); !isSl {
+		return nil
+	}
+	base := stripIface(w.resolveLoad(call.Call.Args[0]))
+	empty := false
+	switch x := base.(type) {
+	case *ssa.Const:
+		empty = x.Value == nil
+	case *ssa.MakeSlice:
+		if k, isK := constInt(x.Len); isK && k == 0 {
+			empty = true
+		}
+	case *ssa.Slice:
+		// a zero-length slice of a fresh array: []T{}[:0], make(…)[:0]
+		if k, isK := constInt(x.High); isK && k == 0 && w.freshBytes(x.X, 0) {
+			empty = true
+		}
+		if al, isAl := x.X.(*ssa.Alloc); isAl && al.Heap {
+			if arr, isArr := al.Type().Underlying().(*types.Pointer).Elem().Underlying().(*types.Array); isArr && arr.Len() == 0 {
+				empty = true
+			}
+		}
+	}
+	if !empty {
+		return nil
+	}
+	return call.Call.Args[1]
 }
